@@ -395,6 +395,38 @@ func (g *Gen) generate(size int, withTest bool) ([]SrcFile, bool) {
 			g.add(-1, "func CypUse() {\n\tvar i cypif = new(cypo)\n\ti.cypm()\n}")
 		}
 	}
+	// unkeyed ELIDED pointer literals: the inner literal's type is *T inside []*T / [N]*T / map[K]*T
+	if r.Chance(45) {
+		g.add(-1, "type cyel struct {\n\tcyela int\n\tcyelb string\n}")
+		switch r.Intn(4) {
+		case 0:
+			g.add(-1, "var _ = []*cyel{{1, \"x\"}, {2, \"y\"}}")
+		case 1:
+			g.add(-1, "var _ = [2]*cyel{{1, \"x\"}}")
+		case 2:
+			g.add(-1, "var _ = map[string]*cyel{\"k\": {1, \"x\"}}")
+		default:
+			g.add(-1, "func CyElUse() []*cyel {\n\treturn []*cyel{{3, \"z\"}}\n}")
+		}
+	}
+	// embedded generic instances with 1, 2 or 3 type arguments whose arguments are types used nowhere else
+	if r.Chance(45) {
+		n := 1 + r.Intn(3)
+		var tps, flds, args []string
+		for i := 0; i < n; i++ {
+			tps = append(tps, fmt.Sprintf("T%d any", i))
+			flds = append(flds, fmt.Sprintf("\tCyF%d T%d", i, i))
+			args = append(args, fmt.Sprintf("cyarg%d", i))
+			g.add(-1, fmt.Sprintf("type cyarg%d %s", i, []string{"int", "string", "struct{}"}[r.Intn(3)]))
+		}
+		g.add(-1, fmt.Sprintf("type cygen[%s] struct {\n%s\n}", strings.Join(tps, ", "), strings.Join(flds, "\n")))
+		emb := fmt.Sprintf("cygen[%s]", strings.Join(args, ", "))
+		if r.Chance(30) {
+			emb = "*" + emb
+		}
+		g.add(-1, "type cygh struct {\n\t"+emb+"\n}")
+		g.add(-1, "var _ cygh")
+	}
 	// aliases
 	if r.Chance(50) {
 		g.add(-1, "type a0 = "+g.pick(g.structs))
@@ -1231,6 +1263,61 @@ type outer struct {
 }
 
 func Use() interface{ m() } { return &outer{} }
+`}},
+		// unkeyed literals with the &T elided: every field of T is used by the literal
+		"elidedptr": {{Name: "a.go", Src: `package p
+
+type pt struct {
+	a int
+	b int
+}
+
+type named struct {
+	x string
+	y int
+}
+
+var _ = []*pt{{1, 2}}
+
+var _ = [1]*pt{{3, 4}}
+
+var _ = map[string]*named{"k": {"s", 5}}
+`}},
+		// embedded generic instances: the type arguments are used by the embedded field
+		"embedgeneric": {{Name: "a.go", Src: `package p
+
+type one[A any] struct{ First A }
+
+type pair[K comparable, V any] struct {
+	Key K
+	Val V
+}
+
+type triple[A, B, C any] struct {
+	X A
+	Y B
+	Z C
+}
+
+type a1 int
+
+type ka int
+
+type va string
+
+type t1 int
+
+type t2 int
+
+type t3 int
+
+type holder struct {
+	one[a1]
+	pair[ka, va]
+	*triple[t1, t2, t3]
+}
+
+var _ holder
 `}},
 		// rule 10.1 with a multi-line specification in the middle of the group; only the last member is referenced
 		"constmultiline": {{Name: "a.go", Src: `package p
